@@ -574,7 +574,11 @@ func (v *Verifier) VerifyFunc(fc *FuncContract) (res *FuncResult) {
 			}
 			t, err := penv.Goal(en.E)
 			if err != nil {
-				unsup("ensures: %v", err)
+				if !strings.Contains(err.Error(), "unknown identifier") {
+					unsup("ensures: %v", err)
+				}
+				// the clause names a call or local that no longer exists
+				t = "false"
 			}
 			parts = append(parts, imp(rt.reach, t))
 		}
